@@ -8,6 +8,7 @@ import (
 	"iter"
 	"strconv"
 	"strings"
+	"sync/atomic"
 	"time"
 
 	eventbus "github.com/jilio/ebu"
@@ -39,6 +40,9 @@ var _ eventbus.SubscriptionStore = (*SQLiteStore)(nil)
 // dbOpener is used to open database connections, injectable for testing
 var dbOpener = sql.Open
 
+// memoryDBCounter numbers the in-memory databases of this process
+var memoryDBCounter uint64
+
 // New creates a new SQLiteStore with the given path and options.
 //
 // Note: When WithAutoMigrate is enabled (the default), migrations run with
@@ -63,8 +67,10 @@ func New(path string, opts ...Option) (*SQLiteStore, error) {
 	// Build connection string with pragmas
 	var dsn string
 	if cfg.path == ":memory:" {
-		// Use shared cache mode for in-memory databases to allow multiple connections
-		dsn = "file::memory:?mode=memory&cache=shared"
+		// Use shared cache mode for in-memory databases to allow multiple connections.
+		// Every store gets a database name of its own: with the anonymous name all
+		// in-memory stores of the process would share one database
+		dsn = fmt.Sprintf("file:ebu-memdb-%d?mode=memory&cache=shared", atomic.AddUint64(&memoryDBCounter, 1))
 	} else {
 		dsn = fmt.Sprintf("file:%s?_busy_timeout=%d", cfg.path, cfg.busyTimeout.Milliseconds())
 	}
